@@ -5,6 +5,7 @@ import (
 	"fmt"
 	"net"
 	"net/netip"
+	"slices"
 	"sort"
 	"syscall"
 	"testing/synctest"
@@ -15,6 +16,7 @@ import (
 
 	"verif/sim/core"
 	"verif/sim/rig"
+	"verif/sim/sched"
 	"verif/sim/simnet"
 	"verif/sim/simstream"
 	"verif/sim/tape"
@@ -31,11 +33,13 @@ type gCfg struct {
 	stunTimeout                         time.Duration
 	twoStunURLs                         bool
 	parkAllocate                        bool
+	sched                               bool // goroutines also park at the entry of every loop submission
+	netRev                              bool // the host gatherer walks its networks in reverse order (tcp before udp)
 }
 
 func (g gCfg) String() string {
 	return fmt.Sprintf("host=%v srflx=%v mapped=%v relay=%v udpMux=%v muxSrflx=%v tcpMux=%v relayTCP=%v ips=%d filter=%v stunTO=%v urls2=%v",
-		g.host, g.srflxStun, g.srflxMapped, g.relay, g.udpMux, g.udpMuxSrflx, g.tcpMux, g.relayTCP, g.nIPs, g.ifaceFilter, g.stunTimeout, g.twoStunURLs)
+		g.host, g.srflxStun, g.srflxMapped, g.relay, g.udpMux, g.udpMuxSrflx, g.tcpMux, g.relayTCP, g.nIPs, g.ifaceFilter, g.stunTimeout, g.twoStunURLs) + map[bool]string{true: " sched", false: ""}[g.sched] + map[bool]string{true: " netrev", false: ""}[g.netRev]
 }
 
 func drawGCfg(t *tape.Tape) gCfg {
@@ -56,28 +60,32 @@ func drawGCfg(t *tape.Tape) gCfg {
 	if !g.host && !g.srflxStun && !g.srflxMapped && !g.relay {
 		g.host = true
 	}
+	g.sched = t.Bias(1, 3, "sched")
+	g.netRev = g.tcpMux && t.Bias(1, 2, "netrev")
 	return g
 }
 
 // gRig is one agent on one host with a STUN server, a TURN stub and optional muxes.
 type gRig struct {
-	c        *core.Ctx
-	t        *tape.Tape
-	cfg      gCfg
-	W        *simnet.World
-	H        *simnet.Host
-	stun     *rig.StunServer
-	stun2    *rig.StunServer
-	turn     *rig.TurnStub
-	ag       *rig.AgentH
-	mux      *rig.CountingUDPMux
-	tcpMux   *rig.CountingTCPMux
-	tcpInner *ice.TCPMuxDefault
-	muxSrflx *ice.UniversalUDPMuxDefault
-	ownSocks map[int]bool // harness-owned sockets (mux sockets): not "acquired while gathering"
-	steps    int
-	trace    bool
-	closed   bool
+	c         *core.Ctx
+	t         *tape.Tape
+	cfg       gCfg
+	W         *simnet.World
+	H         *simnet.Host
+	stun      *rig.StunServer
+	stun2     *rig.StunServer
+	turn      *rig.TurnStub
+	ag        *rig.AgentH
+	mux       *rig.CountingUDPMux
+	tcpMux    *rig.CountingTCPMux
+	tcpInner  *ice.TCPMuxDefault
+	muxSrflx  *ice.UniversalUDPMuxDefault
+	muxSrflxC *rig.CountingUniversalUDPMux
+	sch       *sched.Sched
+	ownSocks  map[int]bool // harness-owned sockets (mux sockets): not "acquired while gathering"
+	steps     int
+	trace     bool
+	closed    bool
 }
 
 func newGRig(c *core.Ctx, t *tape.Tape, cfg gCfg, extra ...ice.AgentOption) (*gRig, error) {
@@ -166,7 +174,8 @@ func newGRig(c *core.Ctx, t *tape.Tape, cfg gCfg, extra ...ice.AgentOption) (*gR
 		g.muxSrflx = ice.NewUniversalUDPMuxDefault(ice.UniversalUDPMuxParams{UDPConn: s, Logger: rig.Quiet().NewLogger("muxs"), Net: g.H.Net()})
 		m := g.muxSrflx
 		c.Defer(func() { _ = m.Close() })
-		opts = append(opts, ice.WithUDPMuxSrflx(g.muxSrflx))
+		g.muxSrflxC = rig.NewCountingUniversalUDPMux(g.muxSrflx)
+		opts = append(opts, ice.WithUDPMuxSrflx(g.muxSrflxC))
 	}
 	if cfg.tcpMux {
 		l := simstream.Listen(&net.TCPAddr{IP: net.ParseIP("10.0.1.10"), Port: 7002})
@@ -177,6 +186,13 @@ func newGRig(c *core.Ctx, t *tape.Tape, cfg gCfg, extra ...ice.AgentOption) (*gR
 		opts = append(opts, ice.WithTCPMux(g.tcpMux), ice.WithDisableActiveTCP())
 	}
 	ice.VerifSeedGlobalRand(1)
+	// the order in which the host gatherer walks its (map-backed) set of networks is a run parameter
+	ice.VerifSetOrder(func(_ string, keys []string) {
+		if cfg.netRev {
+			slices.Reverse(keys)
+		}
+	})
+	c.Defer(func() { ice.VerifSetOrder(nil) })
 	ag, err := rig.NewAgent("A", g.H, time.Now(), append(opts, extra...)...)
 	if err != nil {
 		return nil, err
@@ -188,8 +204,34 @@ func newGRig(c *core.Ctx, t *tape.Tape, cfg gCfg, extra ...ice.AgentOption) (*gR
 		}
 	})
 	g.W.ParkListens = true
+	if cfg.sched {
+		// every submission to the agent's loop parks before it looks at the loop or at its context: the
+		// simulator decides when an addCandidate / state change / inbound handler that is about to queue
+		// goes on, relative to Restart, Close and the replies
+		g.sch = sched.Install(c, []string{"taskloop.Run.entry"})
+		g.sch.T = t
+	}
 	return g, nil
 }
+
+// api runs a call of the root goroutine with the park sites off (the root must never park itself).
+func (g *gRig) api(fn func()) {
+	if g.sch != nil {
+		g.sch.Exempt(fn)
+		return
+	}
+	fn()
+}
+
+func (g *gRig) nSched() int {
+	if g.sch == nil {
+		return 0
+	}
+	return g.sch.NumParked()
+}
+
+// pending counts what the simulator could still do: parked callers, datagrams in flight, parked submitters.
+func (g *gRig) pending() int { return len(g.W.Parked()) + len(g.W.InFlight()) + g.nSched() }
 
 // closeAgent calls Close from a client goroutine and keeps releasing parked callers until it returns.
 func (g *gRig) closeAgent() (returned bool) {
@@ -203,8 +245,12 @@ func (g *gRig) closeAgent() (returned bool) {
 		synctest.Wait()
 		select {
 		case <-done:
-			for p := g.W.Parked(); len(p) > 0; p = g.W.Parked() {
-				g.W.Release(p[0])
+			for p := g.W.Parked(); len(p) > 0 || g.nSched() > 0; p = g.W.Parked() {
+				if len(p) > 0 {
+					g.W.Release(p[0])
+				} else {
+					g.sch.ReleaseIdx(0)
+				}
 				synctest.Wait()
 			}
 			return true
@@ -212,6 +258,10 @@ func (g *gRig) closeAgent() (returned bool) {
 		}
 		if p := g.W.Parked(); len(p) > 0 {
 			g.W.Release(p[0])
+			continue
+		}
+		if g.nSched() > 0 {
+			g.sch.ReleaseIdx(0)
 			continue
 		}
 		time.Sleep(100 * time.Millisecond)
@@ -230,6 +280,9 @@ func (g *gRig) finish() {
 	if g.tcpInner != nil {
 		_ = g.tcpInner.Close()
 	}
+	if g.sch != nil {
+		g.sch.Uninstall()
+	}
 }
 
 var errInjected = errors.New("simulated failure")
@@ -240,11 +293,17 @@ func (g *gRig) step(faults bool) bool {
 	g.steps++
 	parked := g.W.Parked()
 	pool := g.W.InFlight()
-	n := len(parked) + len(pool)
+	ns := g.nSched()
+	n := len(parked) + len(pool) + ns
 	if n == 0 {
 		return false
 	}
 	i := g.t.Choose(n, "gitem")
+	if i >= len(parked)+len(pool) {
+		site := g.sch.ReleaseIdx(i - len(parked) - len(pool))
+		g.log("run %s#%d", site, i-len(parked)-len(pool))
+		return true
+	}
 	disp := 0
 	if faults {
 		disp = g.t.Pick([]int{8, 2, 1}, "gdisp")
@@ -296,10 +355,10 @@ func (g *gRig) drain(faults bool) {
 		}
 		time.Sleep(g.cfg.stunTimeout + 100*time.Millisecond)
 		synctest.Wait()
-		if len(g.W.Parked()) == 0 && len(g.W.InFlight()) == 0 {
+		if g.pending() == 0 {
 			time.Sleep(g.cfg.stunTimeout + 100*time.Millisecond)
 			synctest.Wait()
-			if len(g.W.Parked()) == 0 && len(g.W.InFlight()) == 0 {
+			if g.pending() == 0 {
 				return
 			}
 		}
